@@ -7,7 +7,7 @@ from fractions import Fraction
 VERIF = os.path.dirname(os.path.dirname(os.path.dirname(os.path.abspath(__file__))))
 COQ = os.path.join(VERIF, 'coq')
 REPO = os.environ.get('DINOSAUR_REPO', '/repo')
-DRIVER = os.path.join(COQ, 'Extract', 'ml', 'driver')
+def driver_path(prop_id): return os.path.join(COQ, 'Extract', 'ml', prop_id, 'driver')
 
 ALLOWED_AXIOMS = {
     # real-number axioms of the standard library (statements instantiated at R)
@@ -133,21 +133,25 @@ def build(prop_id, theorems, tier='quick', extra_targets=()):
         if tier == 'thorough' and os.environ.get('VERIF_CLEAN', '1') == '1' and prop_id is not None:
             sh(f'rm -f Prop/{prop_id}.vo Prop/{prop_id}.glob', cwd=COQ)
         # 1. the extracted model (definitions only; must build even when a proof breaks)
-        rc, out = sh('timeout 1500 make -j16 Extract/Dispatch.vo 2>&1 | tail -40', cwd=COQ, timeout=1600)
-        res.log += out
-        ml = os.path.join(COQ, 'Extract', 'ml')
-        if not os.path.exists(os.path.join(COQ, 'Extract', 'Dispatch.vo')):
-            res.ok = False; res.failed.append('model build (Extract/Dispatch.vo): ' + out[-800:])
-        else:
-            need = (not os.path.exists(DRIVER) or
-                    os.path.getmtime(DRIVER) < max(os.path.getmtime(os.path.join(ml, 'dispatch.ml')),
-                                                   os.path.getmtime(os.path.join(ml, 'driver.ml'))))
-            if need:
-                rc, out = sh('ocamlfind ocamlopt -w -a -o driver dispatch.mli dispatch.ml driver.ml 2>&1 | tail -20',
-                             cwd=ml, timeout=600)
-                res.log += out
-                if not os.path.exists(DRIVER):
-                    res.ok = False; res.failed.append('ocaml driver build: ' + out[-500:])
+        if prop_id is not None:
+            ml = os.path.join(COQ, 'Extract', 'ml', prop_id)
+            os.makedirs(ml, exist_ok=True)
+            rc, out = sh(f'timeout 1500 make -j16 Extract/Ex{prop_id}.vo 2>&1 | tail -40', cwd=COQ, timeout=1600)
+            res.log += out
+            drv = driver_path(prop_id)
+            if not os.path.exists(os.path.join(COQ, 'Extract', f'Ex{prop_id}.vo')) or not os.path.exists(os.path.join(ml, 'dispatch.ml')):
+                res.ok = False; res.failed.append(f'model build (Extract/Ex{prop_id}.vo): ' + out[-800:])
+                if os.path.exists(drv): os.remove(drv)
+            else:
+                dsrc = os.path.join(COQ, 'Extract', 'ml', 'driver.ml')
+                need = (not os.path.exists(drv) or
+                        os.path.getmtime(drv) < max(os.path.getmtime(os.path.join(ml, 'dispatch.ml')), os.path.getmtime(dsrc)))
+                if need:
+                    rc, out = sh('cp ../driver.ml . && ocamlfind ocamlopt -w -a -o driver dispatch.mli dispatch.ml driver.ml 2>&1 | tail -20',
+                                 cwd=ml, timeout=600)
+                    res.log += out
+                    if rc != 0 or not os.path.exists(drv):
+                        res.ok = False; res.failed.append('ocaml driver build: ' + out[-500:])
         # 2. the property's theorems
         if prop_id is not None:
             tgt = f'Prop/{prop_id}.vo'
@@ -163,7 +167,7 @@ def build(prop_id, theorems, tier='quick', extra_targets=()):
                     res.ok = False; res.failed.append(f'coqc Prop/{prop_id}.v: ' + out[-600:])
                 else:
                     blocks = parse_print_assumptions(out, theorems)
-                    if len(blocks) != len(theorems):
+                    if theorems and len(blocks) != len(theorems):
                         res.ok = False
                         res.failed.append(f'Print Assumptions: expected {len(theorems)} blocks, got {len(blocks)}')
                     for th, ax in zip(theorems, blocks):
@@ -213,9 +217,9 @@ def _parseq(s: str) -> Fraction:
 
 
 class Model:
-    def __init__(self, prop_num: int):
-        self.prop = prop_num
-        self.p = subprocess.Popen([DRIVER], stdin=subprocess.PIPE, stdout=subprocess.PIPE, text=True, bufsize=1)
+    def __init__(self, prop_id: str):
+        self.prop = int(prop_id[1:])
+        self.p = subprocess.Popen([driver_path(prop_id)], stdin=subprocess.PIPE, stdout=subprocess.PIPE, text=True, bufsize=1)
         self.calls = 0
 
     def call(self, cmd: int, ints=(), arrs=()):
